@@ -31,6 +31,8 @@ def _eval_factory(system):
     def _eval(part, chunk):
         for init, hist in chunk:
             live = system.build(init)
+            if hasattr(system, "begin"):
+                system.begin(live, hist)
             label = None
             skipped = False
             for i, op in enumerate(hist):
@@ -90,9 +92,12 @@ def replay_history(system, data):
     from .run import Partial
     part = Partial()
     live = system.build(data["init"])
+    if hasattr(system, "begin"):
+        system.begin(live, data["history"])
     for op in data["history"]:
         if system.apply(live, op) == SKIP:
             return None
+    system.canon(live)
     system.check(live, data["init"], data["history"], part)
     if part.violations:
         if "signature" in data:
